@@ -37,6 +37,7 @@
 #include <etl/_type_traits/is_pointer.hpp>
 #include <etl/_type_traits/is_trivial.hpp>
 #include <etl/_type_traits/smallest_size_t.hpp>
+#include <etl/_utility/unreachable.hpp>
 
 namespace etl {
 namespace detail {
@@ -87,9 +88,10 @@ struct static_vector_zero_storage {
     /// storage.
     template <typename... Args>
         requires(is_constructible_v<T, Args...>)
-    static constexpr auto emplace_back(Args&&... /*unused*/) noexcept -> void
+    static constexpr auto emplace_back(Args&&... /*unused*/) noexcept -> value_type&
     {
         TETL_PRECONDITION(false);
+        etl::unreachable();
     }
 
     /// \brief Removes the last element of the storage. Always fails for
@@ -159,11 +161,13 @@ struct static_vector_trivial_storage {
     /// \brief Constructs an element in-place at the end of the storage.
     template <typename... Args>
         requires(is_constructible_v<T, Args...> and is_assignable_v<value_type&, T>)
-    constexpr auto emplace_back(Args&&... args) noexcept -> void
+    constexpr auto emplace_back(Args&&... args) noexcept -> value_type&
     {
         TETL_PRECONDITION(!full());
-        index(_data, size()) = T(etl::forward<Args>(args)...);
+        auto& slot = index(_data, size());
+        slot       = T(etl::forward<Args>(args)...);
         unsafe_set_size(static_cast<size_type>(size()) + 1U);
+        return slot;
     }
 
     /// \brief Remove the last element from the container.
@@ -255,11 +259,12 @@ struct static_vector_non_trivial_storage {
     /// \brief Constructs an element in-place at the end of the embedded
     /// storage.
     template <typename... Args>
-    auto emplace_back(Args&&... args) noexcept(noexcept(new(end()) T(etl::forward<Args>(args)...))) -> void
+    auto emplace_back(Args&&... args) noexcept(noexcept(new(end()) T(etl::forward<Args>(args)...))) -> value_type&
     {
         TETL_PRECONDITION(!full());
-        new (end()) T(etl::forward<Args>(args)...);
+        auto* slot = new (end()) T(etl::forward<Args>(args)...);
         unsafe_set_size(static_cast<size_type>(size() + 1));
+        return *slot;
     }
 
     /// \brief Remove the last element from the container.
